@@ -404,4 +404,188 @@ theorem C04_history_sync_durable (dir : String) (cfg cfg' : Cfg) (hcfg : cfg.Val
     rw [e1] at hdb'; cases hdb'
     exact e5
 
+/-! ## non-vacuity
+
+The hypotheses of the theorems above are met by EVERY history with the side conditions and a whole
+family of crash images (`crashOf s dir n`: every file loses its last `n` bytes, but nothing of its
+flushed prefix) — `C03_history_applicable`.  Then a concrete history with a batch that is flushed
+in three pieces across three data files. -/
+
+/-- a file after the loss of its last `n` bytes, except that the flushed prefix is never lost -/
+def cutBy (n : Nat) (x : Nat × FileSt) : Nat × FileSt :=
+  (x.1, ⟨x.2.bytes.extract 0 (max x.2.synced (x.2.bytes.size - n)), x.2.synced⟩)
+
+/-- the state after a crash of `s` in which every data file of `dir` lost (up to) its last `n`
+    bytes: no handle, the lock released, nothing else in the world -/
+def crashOf (s : St) (dir : String) (n : Nat) : St :=
+  match s.world.get dir with
+  | some d => { world := [(dir, { d with data := d.data.map (cutBy n), locked := false })], db := none }
+  | none => { world := [], db := none }
+
+theorem crashImage_cutBy (n : Nat) : ∀ (data : List (Nat × FileSt)),
+    (∀ x ∈ data, x.2.synced ≤ x.2.bytes.size) → CrashImage data (data.map (cutBy n)) := by
+  intro data
+  induction data with
+  | nil => intro _; trivial
+  | cons x t ih =>
+    intro hle
+    have hx := hle x (by simp)
+    refine ⟨rfl, ⟨max x.2.synced (x.2.bytes.size - n), Nat.le_max_left _ _, Nat.max_le.mpr ⟨hx, Nat.sub_le _ _⟩, rfl⟩,
+      ih (fun y hy => hle y (by simp [hy]))⟩
+
+theorem crashed_crashOf {s : St} {dir : String} {d : DirSt} (n : Nat) (hd : s.world.get dir = some d)
+    (hle : ∀ x ∈ d.data, x.2.synced ≤ x.2.bytes.size) :
+    Crashed s (crashOf s dir n) dir d { d with data := d.data.map (cutBy n), locked := false } := by
+  have e : crashOf s dir n
+      = { world := [(dir, { d with data := d.data.map (cutBy n), locked := false })], db := none } := by
+    simp only [crashOf, hd]
+  rw [e]
+  refine ⟨hd, rfl, by simp [World.get], rfl, crashImage_cutBy n d.data hle, ?_⟩
+  have := Engine.mergeDirName_ne dir
+  simp [World.get, this]
+
+/-- **the hypotheses are satisfiable for every history**: whatever the history (with the side
+    conditions) and whatever `n`, the state `crashOf … n` is a crash of the state reached -/
+theorem C03_history_applicable (dir : String) (cfg : Cfg) (hcfg : cfg.Valid) (ops : List AOp) (n : Nat) :
+    ∃ d, Crashed (arun (openDB St.init dir cfg).1 ops) (crashOf (arun (openDB St.init dir cfg).1 ops) dir n)
+      dir d { d with data := d.data.map (cutBy n), locked := false } := by
+  obtain ⟨db, hs, hd, _, hdir⟩ := history_handle dir cfg hcfg ops
+  subst hdir
+  obtain ⟨pre, f, hdata, _⟩ := hd.shape
+  cases hw : (arun (openDB St.init db.dir cfg).1 ops).world.get db.dir with
+  | none =>
+    -- impossible: the directory of the handle ends with the active file
+    simp [dirOf, hw, DirSt.empty] at hdata
+  | some d =>
+    refine ⟨d, crashed_crashOf n hw ?_⟩
+    have := hd.le
+    rwa [dirOf_eq hw] at this
+
+instance : (op : AOp) → Decidable (AOpOK op)
+  | .put _ _ => by unfold AOpOK; infer_instance
+  | .del _ => by unfold AOpOK; infer_instance
+  | .get _ => by unfold AOpOK; infer_instance
+  | .sync => by unfold AOpOK; infer_instance
+  | .bnew _ _ => by unfold AOpOK; infer_instance
+  | .bput _ _ => by unfold AOpOK; infer_instance
+  | .bdel _ => by unfold AOpOK; infer_instance
+  | .bget _ => by unfold AOpOK; infer_instance
+  | .bcommit => by unfold AOpOK; infer_instance
+  | .bdrop => by unfold AOpOK; infer_instance
+
+private def K (s : String) : ByteArray := s.toUTF8
+
+/-- `DataFileSize = 200`: a plain `Put`, then a batch (id 77, no Sync) whose third `Batch.Put`
+    overflows the estimate — `flushStagedAndUpdateFile` writes `a, b` to file 0 and rotates; a plain
+    `Put x` goes to file 1 while the batch is open; `Batch.Delete base` is staged; `Batch.Put d`
+    flushes `c, del base` to file 1 and rotates; `Commit` writes `d` and the sealing record to
+    file 2; a last plain `Put y` follows. -/
+def demoCfg : Cfg := { fileSize := 200, sync := 0, bps := 0, idx := 0, io := 0, shards := 1 }
+def demoOps : List AOp :=
+  [.put (K "base") (K "B"), .bnew false 77, .bput (K "a") (K "1"), .bput (K "b") (K "2"), .bput (K "c") (K "3"),
+   .put (K "x") (K "X"), .bdel (K "base"), .bput (K "d") (K "4"), .bcommit, .put (K "y") (K "Y")]
+
+theorem demoOps_ok : ∀ op ∈ demoOps, AOpOK op := by decide
+theorem demoOps_fresh : FreshIds demoOps := by decide
+
+/-- `C03_history_prefix` / `C04_history_atomic` are not vacuous: at every point `m` of the demo
+    history and for every loss `n`, their hypotheses hold for the crash state `crashOf … n` -/
+example (m n : Nat) (cfg' : Cfg) (hcfg' : cfg'.Valid) :
+    ∃ s' db' j, openDB (crashOf (arun (openDB St.init "d" demoCfg).1 (demoOps.take m)) "d" n) "d" cfg' = (s', .ok) ∧
+      s'.db = some db' ∧ j ≤ (unitsOf (openDB St.init "d" demoCfg).1 (demoOps.take m)).length ∧
+      ∀ k, absGet s' db' k = specOfUnits ((unitsOf (openDB St.init "d" demoCfg).1 (demoOps.take m)).take j) k := by
+  have hok : ∀ op ∈ demoOps.take m, AOpOK op := fun op h => demoOps_ok op (List.mem_of_mem_take h)
+  have hfr : FreshIds (demoOps.take m) := by
+    have e : bnewIds demoOps = bnewIds (demoOps.take m) ++ bnewIds (demoOps.drop m) := by
+      conv => lhs; rw [← List.take_append_drop m demoOps]
+      simp only [bnewIds, List.flatMap_append]
+    have h1 := demoOps_fresh.1
+    have h2 := demoOps_fresh.2
+    rw [e] at h1 h2
+    exact ⟨(List.nodup_append.mp h1).1, fun i hi => h2 i (List.mem_append_left _ hi)⟩
+  obtain ⟨d, hcr⟩ := C03_history_applicable "d" demoCfg (by decide) (demoOps.take m) n
+  obtain ⟨s', db', j, h1, h2, h3, h4, _⟩ := C03_history_prefix "d" demoCfg cfg' (by decide) hcfg'
+    (demoOps.take m) hok (idsOK_of_freshIds "d" demoCfg (by decide) _ hok hfr) _ d _ hcr
+  exact ⟨s', db', j, h1, h2, h3, h4⟩
+
+/-! ## evaluated sanity checks (compiled evaluation by `#guard`; not used by any proof) -/
+
+private def showU : MUnit → String
+  | .put k v => s!"put {String.fromUTF8! k}={String.fromUTF8! v}"
+  | .del k => s!"del {String.fromUTF8! k}"
+  | .batch id ops =>
+    s!"batch {id} {ops.map (fun o => s!"{if o.typ = 1 then "del" else "put"} {String.fromUTF8! o.key}={String.fromUTF8! o.value}")}"
+
+/-- per data file `(id, size, flushed prefix)` and the active id -/
+private def view (s : St) : Option (List (Nat × Nat × Nat) × Nat) :=
+  match s.db with
+  | some db => some ((dirOf s db).data.map (fun x => (x.1, x.2.bytes.size, x.2.synced)), db.activeId)
+  | none => none
+
+private def absOf (s : St) (k : ByteArray) : Option ByteArray :=
+  match s.db with
+  | some db => absGet s db k
+  | none => none
+
+private def demoKeys : List String := ["base", "a", "b", "c", "d", "x", "y"]
+private def dump (s : St) : List (String × String) :=
+  demoKeys.filterMap fun k => (absOf s (K k)).map fun v => (k, String.fromUTF8! v)
+private def dumpSpec (m : C01.Spec) : List (String × String) :=
+  demoKeys.filterMap fun k => (m (K k)).map fun v => (k, String.fromUTF8! v)
+private def cfg2 : Cfg := { fileSize := 50, sync := 1, bps := 0, idx := 2, io := 1, shards := 16 }
+private def demoAt (m : Nat) : St := arun (openDB St.init "d" demoCfg).1 (demoOps.take m)
+private def demoUnits (m : Nat) : List MUnit := unitsOf (openDB St.init "d" demoCfg).1 (demoOps.take m)
+/-- the mapping `Open` exposes after a crash at point `m` of the history that loses `n` bytes -/
+private def recovered (m n : Nat) : List (String × String) := dump (openDB (crashOf (demoAt m) "d" n) "d" cfg2).1
+
+-- the units of the whole history: the batch is ONE unit, in staging order, acknowledged after `x`
+#guard (demoUnits 10).map showU
+  = ["put base=B", "put x=X", "batch 77 [put a=1, put b=2, put c=3, del base=, put d=4]", "put y=Y"]
+#guard (IdsOK (openDB St.init "d" demoCfg).1 h0 demoOps : Bool)
+-- the files after `Commit` (point 9) and at the end: two pieces are flushed AND synced by the
+-- rotations, the last piece + sealing record (26 bytes) and `y` (13 bytes) are not
+#guard view (demoAt 9) == some ([(0, 42, 42), (1, 41, 41), (2, 26, 0)], 2)
+#guard view (demoAt 10) == some ([(0, 42, 42), (1, 41, 41), (2, 39, 0)], 2)
+-- crash right after `Commit` returned: nothing lost ⇒ all three units (j = 3) …
+#guard recovered 9 0 == [("a", "1"), ("b", "2"), ("c", "3"), ("d", "4"), ("x", "X")]
+#guard recovered 9 0 == dumpSpec (specOfUnits ((demoUnits 9).take 3))
+-- … a cut INSIDE the batch's last piece (1 … 26 bytes lost: the sealing record or also `d` is torn)
+-- ⇒ NONE of the batch, although two pieces of it are intact on disk: j = 2
+#guard [1, 12, 13, 14, 25, 26, 1000].all fun n => recovered 9 n == [("base", "B"), ("x", "X")]
+#guard recovered 9 13 == dumpSpec (specOfUnits ((demoUnits 9).take 2))
+-- crash at the end: j = 4 (nothing lost), j = 3 (`y` torn), j = 2 (the cut reaches the sealing record)
+#guard recovered 10 0 == [("a", "1"), ("b", "2"), ("c", "3"), ("d", "4"), ("x", "X"), ("y", "Y")]
+#guard recovered 10 0 == dumpSpec (specOfUnits (demoUnits 10))
+#guard [1, 12, 13].all fun n => recovered 10 n == dumpSpec (specOfUnits ((demoUnits 10).take 3))
+#guard [14, 26, 27, 39, 1000].all fun n => recovered 10 n == dumpSpec (specOfUnits ((demoUnits 10).take 2))
+-- process death while the batch is open and partly flushed (point 8: `a, b, c, del base` are in
+-- the files and in the LIVE index): nothing lost, yet the recovered mapping shows nothing of it
+#guard dump (demoAt 8) == [("a", "1"), ("b", "2"), ("c", "3"), ("x", "X")]
+#guard recovered 8 0 == [("base", "B"), ("x", "X")]
+#guard recovered 8 0 == dumpSpec (specOfUnits (demoUnits 8))
+-- a batch id may be reused after its batch was committed, not after it was abandoned half-flushed
+#guard (IdsOK (openDB St.init "d" demoCfg).1 h0
+  [.bnew false 5, .bput (K "a") (K "1"), .bcommit, .bnew false 5, .bput (K "b") (K "2"), .bcommit] : Bool)
+#guard !(IdsOK (openDB St.init "d" demoCfg).1 h0
+  (demoOps.take 6 ++ [.bdrop, .bnew false 77]) : Bool)
+
+/-! ## axioms -/
+
+/--
+info: 'XixiKV.C03H.C03_history_prefix' depends on axioms: [propext, Classical.choice, Quot.sound]
+-/
+#guard_msgs in #print axioms C03_history_prefix
+/--
+info: 'XixiKV.C03H.C03_history_prefix_from' depends on axioms: [propext, Classical.choice, Quot.sound]
+-/
+#guard_msgs in #print axioms C03_history_prefix_from
+/--
+info: 'XixiKV.C03H.C04_history_atomic' depends on axioms: [propext, Classical.choice, Quot.sound]
+-/
+#guard_msgs in #print axioms C04_history_atomic
+/--
+info: 'XixiKV.C03H.C04_history_sync_durable' depends on axioms: [propext, Classical.choice, Quot.sound]
+-/
+#guard_msgs in #print axioms C04_history_sync_durable
+
 end XixiKV.C03H
